@@ -17,8 +17,8 @@ from esim.simfile import SimFile
 from . import base
 
 ID = "C16"
-QUICK_RUNS = 4000
-THOROUGH_RUNS = 250000
+QUICK_RUNS = 10000
+THOROUGH_RUNS = 400000
 LEVEL = "exploration"
 RULE = ("one run = 2-4 threads each executing 2-8 drawn operations on one shared MemoryLogger (write untyped / "
         "typed / traceback-typed, validate, serialize, flush_tracebacks, reset) or logging 2-6 messages each "
